@@ -1164,9 +1164,7 @@ pub fn render_op_file(f: &OpFileModel) -> String {
                 out.push_str("}\n");
             }
             OpDef::Operation { kind, name, vars, sel } => {
-                // the `{ ... }` query shorthand is never rendered: the pinned parser panics on it
-                // (a C07/C08-grammar matter, outside what this machinery claims)
-                let shorthand = false;
+let shorthand = kind == "query" && name.is_none() && vars.is_empty() && (style >> 32) % 2 == 0;
                 if !shorthand {
                     out.push_str(kind);
                     if let Some(n) = name {
